@@ -49,8 +49,9 @@ known("C01", "C01-id-aliased", ["id-aliased"], r"^errors: could not find the id 
 fixed("C01", "C01-id-with-hash", "fa4d884", "entity ids containing # (N1#1): the insertion-point encoding field:index#id was split at every #, the id was dropped and every child step below such an entity failed with could not find id in path")
 fixed("C01", "C01-abstract-fragment-inside-object", "0a0fc43", "{ n1s { ... on Node { id } } } and { leafs { ... on IMid { b } } }: the __typename the planner injects into a fragment on an interface or union was registered for scrubbing under the abstract type name only and leaked into the answer")
 fixed("C01", "C01-mixed-union-list-not-stitched", "b3a82f6", "{ us { ... on N1 { calc } } } with us answering [N1, N4, N1]: FindInsertionPoints gave up on the whole list at the first entry without id (a member type the client did not select), no entry was stitched and the field came back empty without an error")
-known("C01", "C01-list-of-lists", ["list-of-lists"], r"^(errors: entry in result wasn't a map|diff:MISSING (<field>|node))$",
-      "FindInsertionPoints does not descend into nested lists", witness="{ grid { phone } } with grid: [[N1!]]")
+known("C01", "C01-list-of-lists", ["list-of-lists"], r"^errors: entry in result wasn't a map$",
+      "FindInsertionPoints does not descend into nested lists: a field of another service below a list of lists fails the operation (the scrubbing half of this finding - the whole list dropped, or answered with the planner's helper id - is repaired, 5d01db3 / 350bf7f)", witness="{ grid { phone } } with grid: [[N1!]]")
+fixed("C01", "C01-list-of-lists-not-scrubbed", "350bf7f", "{ grid { calc } } with grid: [[N1!]]: ScrubFields.clean looked at list entries only when they were objects; the list of lists was dropped from the answer as 'nothing left' (and, once null entries count as content, answered with the helper id inside)")
 fixed("C01", "C01-interface-field-empty-fragment", "f1e91e2", "{ named { ... on N3 { size } } } with N3.size owned by another service, and { things { __typename } }: an interface-typed field was rewritten into one fragment per implementation, implementations with nothing selected at the routed service got fragments with empty selection sets, which print as invalid GraphQL (Expected {, found })")
 known("C01", "C01-typename-aliased-in-interface-field", ["interface-field", "typename", "alias"], r"^diff:(MISSING <field>|EXTRA __typename)$",
       "inside an interface-typed field whose selection is rewritten into per-type fragments an aliased __typename is replaced by the plain helper: the alias key is missing and __typename appears instead (before fix f1e91e2 these operations failed with an invalid sub-request)",
@@ -80,6 +81,13 @@ known("C01", "C01-alias-named-node", ["alias-is-helper-name"], r"^diff:MISSING n
       "a root field aliased `node` is treated like the Relay lookup by the executor's result handling", witness="{ node: leafs { __typename } }")
 fixed("C01", "C01-named-fragment-reused", "bbfbc78", "{ n2 { ...F } b: n2 { ...F } } fragment F on N2 { owner { calc } }: sanitizeSelectionSet rewrote the shared fragment definition on first use; the second spread saw the injected helper as client-selected, did not register it for scrubbing and the client got id / __typename back")
 
+fixed("C04", "C04-node-shaped-field-of-other-type-unrouted", "d08dc60", "type RootQuery { node(id: ID!): Node rbs: [RB!]! } of a service that names its root types itself (set Wroots), or type Tree { node(id: ID!): Node }: TypeURLMap.SetFromSchema skipped every field with the shape of the Relay lookup, on whatever type, so a field of the merged schema had no route")
+fixed("C06", "C06-unconditional-mutation-root-dropped", "ac99505", "mutation ($v: Boolean!) { ... @include(if: $v) { incr(by: 1) } incr(by: 1) } with v = false, mutation { incr(by: 1) @skip(if: true) incr(by: 1) }: the owner received incr under the condition of the first selection only and executed nothing - an unconditionally selected mutation root field ran zero times")
+fixed("C01", "C01-list-of-nulls-pruned", "5d01db3", "{ maybeN1s { name } } with maybeN1s == [null, null, null] (a nullable list of entities of another service whose entries are all null): scrubbing the helper fields dropped the list because no entry had content left, the client got {} instead of the list of nulls")
+fixed("C01", "C01-same-key-conditional-then-unconditional", "ac99505", "{ n1s { name @skip(if: true) name } }, { n2 @skip(if: true) { title } n2 { title } }, { n1s { ... @skip(if: true) { name } name } }: the sanitizer merged the selections of one response key under the directives of the first of them, the unconditional later selection went away with the skipped one (answer {} instead of the names)")
+known("C01", "C01-same-key-two-conditions", ["same-key-two-conditions"], r"^diff:(MISSING|EXTRA) <field>$",
+      "one response key selected twice at one level, each time under a condition of its own (@skip(if: $a) ... @include(if: $b)): the merged field keeps the directives of the first selection, so the second one's condition is ignored (its selections come along when the first is taken, the field is missing when only the second is). Not expressible as one directive on one field; what is left after ac99505, which repairs the case that one of the two is unconditional",
+      witness="query ($a: Boolean!, $b: Boolean!) { n1s { n2s @skip(if: $a) { title } n2s @include(if: $b) { owner { phone } } } } with a = b")
 known("C01", "C01-same-key-across-fragment-explicit-id", ["same-response-key-across-fragment", "explicit-id"], r"^diff:MISSING id$",
       "one composite field selected twice under one response key, once directly and once through a fragment, with `id` requested explicitly in only one of the two: the helper `id` the planner adds for the other one is registered for scrubbing at the shared path and the client's own `id` is removed (sibling selections without a fragment are merged since fix 7dafd02)",
       witness="{ n2 { id } ... { n2 { title } } }")
